@@ -6,6 +6,6 @@ CONSTANTS
   Kinds = {"open", "change0", "change1", "change2", "open_nf", "semtok", "unkreq", "unknotif", "cresp", "shutdown", "early"}
   Emit = FALSE
   Deviations = {}
-INVARIANTS CacheCoherent AnswerExactlyOnce NoPendingAtRest Survives
+INVARIANTS CacheCoherent DocsFollowProtocol AnswerExactlyOnce NoPendingAtRest Survives
 PROPERTIES PublishExactlyOnce EventuallyAnswered
 CHECK_DEADLOCK FALSE
